@@ -383,7 +383,7 @@ def sweep(per_form=None, maxw=9, names=None):
                     n = 1  # let check() surface the problem
                 for r in range(n):
                     yield {"t": s["t"], "r": r, "maxw": maxw}
-                if form == "B" and "C" in per_form and len(specs_wires(s["t"])) <= 4:
+                if form in ("B", "A", "P") and "C" in per_form and len(specs_wires(s["t"])) <= 4:
                     # fixed control patterns for every leaf: the control-on-zero and mixed branches of controlled
                     # rules are easy to get wrong and rare under uniform sampling
                     for cw, cv, ww, wwt in ((["kc1"], [1], [], None), (["kc1"], [0], [], None), (["kc1", "kc2"], [0, 1], [], None),
